@@ -249,6 +249,10 @@ func (r *Reader) Inspect(validateBlockHash bool) (Stats, error) {
 		// decode just the CID bytes
 		cidLen, c, err := cid.CidFromReader(dr)
 		if err != nil {
+			if err == io.EOF {
+				// The length prefix promised a section; running dry here is a truncation, not a clean end.
+				err = io.ErrUnexpectedEOF
+			}
 			return Stats{}, err
 		}
 
@@ -284,7 +288,7 @@ func (r *Reader) Inspect(validateBlockHash bool) (Stats, error) {
 			// The SumStream uses a buffered copy to write bytes into the hasher which will take
 			// advantage of streaming hash calculation depending on the hash function.
 			// TODO: introduce SumStream in go-cid to simplify the code here.
-			blockReader := io.LimitReader(dr, int64(blockLength))
+			blockReader := &io.LimitedReader{R: dr, N: int64(blockLength)}
 			mhl := cp.MhLength
 			if mhtype == multicodec.Identity {
 				mhl = -1
@@ -292,6 +296,10 @@ func (r *Reader) Inspect(validateBlockHash bool) (Stats, error) {
 			mh, err := multihash.SumStream(blockReader, cp.MhType, mhl)
 			if err != nil {
 				return Stats{}, err
+			}
+			if blockReader.N != 0 {
+				// The payload ended before the section did.
+				return Stats{}, io.ErrUnexpectedEOF
 			}
 			var gotCid cid.Cid
 			switch cp.Version {
